@@ -137,3 +137,25 @@ func TestC01_IndexIndexUnchecked(t *testing.T) {
 			End()
 	})
 }
+
+// R1.3: the conversion node is built after every convertibility test failed: int("a"), and with
+// two arguments: int(1, 2)
+func TestC01_ConversionUnchecked(t *testing.T) {
+	pkg := newPkg()
+	mustBeAcceptedButIllTyped(t, pkg, func() {
+		pkg.NewFunc(nil, "main", nil, nil, false).BodyStart(pkg).
+			NewVar(types.Typ[types.String], "s").
+			DefineVarStart(0, "b").
+			Typ(types.Typ[types.Int]).VarVal("s").Call(1).
+			EndInit(1).
+			End()
+	})
+	pkg = newPkg()
+	mustBeAcceptedButIllTyped(t, pkg, func() {
+		pkg.NewFunc(nil, "main", nil, nil, false).BodyStart(pkg).
+			DefineVarStart(0, "b").
+			Typ(types.Typ[types.Int]).Val(1).Val(2).Call(2).
+			EndInit(1).
+			End()
+	})
+}
